@@ -77,3 +77,17 @@ pub fn anyhow_drop(_e: &mut anyhow::Error) {}
 /// `<BTreeMap<AuthorId, u64> as Drop>::drop` -> no-op (leak): B-tree node deallocation walks are
 /// intractable for CBMC (DESIGN.md P12) and not a subject of the harnesses using this stub.
 pub fn btreemap_heads_drop(_m: &mut std::collections::BTreeMap<iroh_docs::AuthorId, u64>) {}
+
+/// `std::hash::RandomState::new` (per-thread random keys from the OS) -> fixed keys.
+pub fn random_state_new() -> std::hash::RandomState {
+    unsafe { std::mem::transmute::<(u64, u64), std::hash::RandomState>((0x0123_4567_89ab_cdef, 0x0f1e_2d3c_4b5a_6978)) }
+}
+
+/// Formatting of errors and backtraces (symbolisation pulls gimli/addr2line/miniz into the goto
+/// program): prints nothing.  Error *messages* are not the subject of any property.
+pub fn anyhow_fmt(_e: &anyhow::Error, _f: &mut core::fmt::Formatter<'_>) -> core::fmt::Result {
+    Ok(())
+}
+pub fn backtrace_fmt(_b: &std::backtrace::Backtrace, _f: &mut core::fmt::Formatter<'_>) -> core::fmt::Result {
+    Ok(())
+}
